@@ -12,7 +12,7 @@ from harness import core, values as V, diffcommon as D
 THEOREM_FILE = "Properties/C04.v"
 COQCHK = ["Properties.C04"]
 RULE = ("pairs: (a) lists over a 4-atom alphabet, length <= 12, related by insert/delete/replace/move/duplicate/rotate edits, planted under 0-2 "
-        "common container levels; (b) random nested values and edit scripts (1-3 edits); x verbose {1,2} x threshold {0,0.33,0.9}, default "
+        "common container levels; (a') dicts with 4-8 common keys inserted in different orders, and t2 with all dicts rebuilt in shuffled insertion order (20%); (b) random nested values and edit scripts (1-3 edits); x verbose {1,2} x threshold {0,0.33,0.9}, default "
         "alignment (zip_ordered_iterables=False). Non-trivial = the diff is non-empty; distinct by (t1, t2).")
 TRUSTED = ["difflib.SequenceMatcher opcodes are an oracle: the theorems hold for EVERY opcode list, the correspondence feeds the model the opcodes difflib returns",
            "DeepHash of set members is replaced by an injective stand-in in the model (inputs with == atoms of different type or tag-like strings inside sets are outside the correspondence; finding K1)",
@@ -48,6 +48,13 @@ def check_entries(ctx, t1, t2, res, verbose, cfg):
         except Exception:
             return False, None
 
+    def teq(a, b):
+        # a reported value that is not a value of the universe at all (e.g. the `not present` sentinel) is not equal to the input's
+        try:
+            return V.typed_eq(a, b)
+        except TypeError:
+            return False
+
     def bad(clause, path, **extra):
         case = dict(t1=repr(t1), t2=repr(t2), clause=clause, path=path, verbose_level=verbose, **cfg)
         case.update(extra)
@@ -72,18 +79,18 @@ def check_entries(ctx, t1, t2, res, verbose, cfg):
     for p, ch in res.get("values_changed", {}).items():
         ok1, a = ex(t1, p)
         ok2, b = ex(t2, ch.get("new_path", p))
-        if not (ok1 and V.typed_eq(a, ch["old_value"])):
+        if not (ok1 and teq(a, ch["old_value"])):
             bad("old value does not resolve in t1", p)
-        elif not (ok2 and V.typed_eq(b, ch["new_value"])):
+        elif not (ok2 and teq(b, ch["new_value"])):
             bad("new value does not resolve in t2", p, verbose2_new_path_resolves=v2_resolves(p, ch["new_value"], "values_changed"))
         elif not (ch["old_value"] != ch["new_value"]):
             bad("changed value does not differ", p, parent_is_sequence=parent_is_seq(p))
     for p, ch in res.get("type_changes", {}).items():
         ok1, a = ex(t1, p)
         ok2, b = ex(t2, ch.get("new_path", p))
-        if not (ok1 and V.typed_eq(a, ch["old_value"])):
+        if not (ok1 and teq(a, ch["old_value"])):
             bad("old value does not resolve in t1", p)
-        elif not (ok2 and V.typed_eq(b, ch["new_value"])):
+        elif not (ok2 and teq(b, ch["new_value"])):
             bad("new value does not resolve in t2", p, verbose2_new_path_resolves=v2_resolves(p, ch["new_value"], "type_changes"))
         elif type(ch["old_value"]) is type(ch["new_value"]) or ch["old_type"] is not type(ch["old_value"]) or ch["new_type"] is not type(ch["new_value"]):
             bad("type change without a change of type", p)
@@ -93,7 +100,7 @@ def check_entries(ctx, t1, t2, res, verbose, cfg):
         it = items.items() if isinstance(items, dict) else [(p, None) for p in items]
         for p, val in it:
             ok, v = ex(here, p)
-            if not ok or (isinstance(items, dict) and not V.typed_eq(v, val)):
+            if not ok or (isinstance(items, dict) and not teq(v, val)):
                 bad(cat + " does not resolve to the reported value", p)
             if there is not None:
                 ok2, _ = ex(there, p)
@@ -102,7 +109,7 @@ def check_entries(ctx, t1, t2, res, verbose, cfg):
     for p, ch in res.get("iterable_item_moved", {}).items():
         ok1, a = ex(t1, p)
         ok2, b = ex(t2, ch["new_path"])
-        if not (ok1 and ok2 and V.typed_eq(b, ch["value"]) and a == b):
+        if not (ok1 and ok2 and teq(b, ch["value"]) and a == b):
             bad("moved item does not resolve", p)
 
 
@@ -123,7 +130,12 @@ def gen_pairs(ctx, n):
             else:
                 t1, t2 = [shared, 0, shared], [y, 0, x]
             ctx.count("gen:shared_list_same_index_edit")
-        elif r < 0.08:
+        elif r < 0.12:
+            # same key set, different insertion order (the result may not depend on it)
+            a, b = V.gen_wide_dict_pair(rng)
+            t1, t2 = V.plant(rng, rng.choice([0, 0, 1]), (a, b))
+            ctx.count("gen:wide_dict_reordered")
+        elif r < 0.16:
             a, b = V.gen_row_list_pair(rng)
             t1, t2 = V.plant(rng, rng.choice([0, 0, 1]), (a, b))
             ctx.count("gen:tuple_rows")
@@ -143,6 +155,9 @@ def gen_pairs(ctx, n):
         else:
             t1, t2 = V.gen_value(rng, 3, 4), V.gen_value(rng, 3, 4)
             ctx.count("gen:independent")
+        if rng.random() < 0.2:
+            t2 = V.reorder_dicts(rng, t2)
+            ctx.count("gen:t2_dicts_reordered")
         if rng.random() < 0.15:
             # the quantifier allows an object to occur at two positions of t1: the model sees the unfolded tree
             t1s, ok = V.share(rng, t1)
